@@ -53,7 +53,7 @@ CLAIMED = {
             'DESIGN.md §4 C11'),
     'C12': ('model_checking', 'symbolic execution of rustc MIR (mirsym) + z3: panic / wedge reachability on the platform entry points under a symbolic environment',
             'Bounded symbolic model checking of crash freedom and error routing: real SendParameters::execute, Datamodel::send, ScxmlEventIOProcessor::send/send_to_session and FsmExecutor::send_to_session run with a solver-chosen environment (target form, existence of parent/child/addressed session, processor type, which argument expression fails); no panic outcome is feasible, the sender internal queue holds exactly the error event the Recommendation assigns, nothing is delivered on failure, and a main loop that executes a failing send inside a transition still terminates on cancel.',
-            'Trusted: mirsym + environment models. Outside: invoke start failures, ECMAScript, reader-rejected documents. Two defects repaired (a03f98d, 343de79).',
+            'Trusted: mirsym + environment models (catch_unwind modelled without mutex poisoning: a panic unwinding through a lock taken inside the closure is inconclusive). Also decided: a child document that the reader rejects (8 kinds), started through the executor the way Fsm::invoke does, comes back as Err to the invoking thread (h_c12_invoke_bad). Outside: other invoke start failures, ECMAScript, documents rejected as the document of the session itself, unregistered data model names. Five defects repaired (a03f98d, 343de79, d728eed, 6726d26, 9dcee17).',
             'DESIGN.md §4 C12'),
     'C15': ('model_checking', 'symbolic execution of rustc MIR (mirsym) + z3: real send path on a 3-session topology, symbolic target form / payload / topology',
             'Bounded symbolic model checking: for every target form (literal and targetexpr), processor type spelling, payload shape and parent/child topology exactly one queue grows by exactly one event and it is the addressed one; name, sendid, params/namelist/content values (arbitrary i64) arrive unchanged; origintype/origin are set and a reply sent to origin reaches the sender external queue; all other queues stay unchanged.',
